@@ -329,6 +329,7 @@ CHECKS = {
               "closes first or an abnormal/explicit session ending; distinct = distinct history tuple"),
         assumptions=["whole-process goroutine/descriptor counts are used; harness goroutines are quiescent at measuring points",
                      "stdio endpoints are not judged after shutdown (they live as long as the process' standard streams)"],
+        also=dict(pkg="c14b", tests=["TestSilentCarrier"], quick=dict(run=".", timeout=300), thorough=dict(run=".", timeout=300)),
         quick=dict(run=".", checks=14, timeout=1200),
         thorough=dict(run=".", checks=60, timeout=3400, shards=4),
         design_ref="DESIGN.md 2/C14",
